@@ -27,7 +27,7 @@ from harness.wire import RecordingWriter
 
 PROP = "C15"
 LEVEL = "fault_enumeration"
-TECHNIQUE = 'offline history checker over the transmission log and the accepted log of a PTY Marlin firmware model driven by the real printcore threads; fault enumeration by transmission index; jobs extended with send() while streaming; sys.monitoring yield injection and delay points'
+TECHNIQUE = 'offline history checker over the transmission log and the accepted log of a PTY Marlin firmware model driven by the real printcore threads; fault enumeration by transmission index; jobs extended with send() while streaming; sender event-log monitors (flow-control tokens, resend requests honoured); sys.monitoring yield injection and delay points'
 LEVEL_TEXT = 'Every subset (size <= 2 quick / 3 thorough) of corrupted transmission indices of a short job is enumerated under three latency classes, plus random jobs; schedules are perturbed, not enumerated. Listed known findings excepted.'
 RULE = ("jobs produced by GCodeBuilder (moves, arcs, comments incl. non-ASCII, blank and comment-only lines, "
         "2-60 lines); corrupted transmissions by index: EVERY subset of size <= k of the transmission indices "
